@@ -283,4 +283,53 @@ example : ∀ c ∈ [Comp.val (some (.int "int" true 1, 8)), Comp.sub .any],
   · exact ⟨by simp [WellTyped, Val.ty], rfl⟩
   · trivial
 
+/-! ## Variadic mode after the repair of `InExpr.Resolve` (goom 8d8ef90): a non-slice alternative is ONE argument -/
+
+/-- One alternative bound as one argument: `resolveComp` against the first parameter type succeeds for a good component. -/
+theorem goodComp_resolves (T : Ty) (c : Comp) (h : GoodComp T c) : Comp.isTupleLike c = false ∧ ∃ e, resolveComp c T = .ok e := by
+  match c, h with
+  | .val none, h =>
+    obtain ⟨v, hv⟩ := toValue_total T none h
+    exact ⟨rfl, ⟨.equals (some v), by simp [resolveComp, hv, Res.bind]⟩⟩
+  | .val (some (v, sz)), h =>
+    obtain ⟨v', hv⟩ := toValue_total T (some (v, sz)) h.1
+    exact ⟨h.2, ⟨.equals (some v'), by simp [resolveComp, hv, Res.bind]⟩⟩
+  | .sub .any, _ => exact ⟨rfl, ⟨.any, by simp [resolveComp, resolve]⟩⟩
+
+/-- Resolve-totality of `In` in VARIADIC mode, for a function with at most one fixed parameter (`f(xs ...T)` or `f(a A, xs ...T)`):
+    if every alternative is a single good component for the first parameter position (`elemT` for `f(xs ...T)`, `A` otherwise) and
+    is not a slice/array (those are expanded into whole argument lists), `In(x1..xn).Resolve(types, true)` succeeds — the
+    `reflect.Value.Len` panic of `In(1, 2)` on `f(xs ...int)` is gone.  With two or more fixed parameters a single value is
+    rejected with the "number of args" error (not a panic); slices/arrays at the variadic position are covered by the
+    differential run only.  PARTIAL in the same sense as `in_resolve_total_partial` (no `[]interface{}` alternative, no nested
+    Equals/In). -/
+theorem in_resolve_total_variadic_partial (fixed : List Ty) (elemT T0 : Ty) (hf : fixed.length ≤ 1)
+    (hT : typeAt (fixed ++ [elemT]) 0 = some T0) :
+    ∀ (items : Items) (cs : List Comp) (i : Nat), Items.comps items = some cs →
+      (∀ c ∈ cs, GoodComp T0 c ∧ expandable c = none) → ∃ rows, resolveTuplesVFrom items fixed elemT i = .ok rows
+  | .nil, cs, _, _, _ => ⟨.nil, by simp [resolveTuplesVFrom]⟩
+  | .tuple _ _, cs, _, hc, _ => by simp [Items.comps] at hc
+  | .one c rest, cs, i, hc, hg => by
+    simp only [Items.comps, Option.map_eq_some_iff] at hc
+    obtain ⟨cs', hcs', rfl⟩ := hc
+    obtain ⟨rows, hrows⟩ := in_resolve_total_variadic_partial fixed elemT T0 hf hT rest cs' (i + 1) hcs'
+      (fun c' h' => hg c' (by simp [h']))
+    obtain ⟨hgc, hne⟩ := hg c (by simp)
+    obtain ⟨ht, e, he⟩ := goodComp_resolves T0 c hgc
+    have hlt : ¬ (1 < fixed.length) := by omega
+    have hrow : toExprV (.cons c .nil) fixed elemT = .ok (.cons e .nil) := by
+      have hl : ¬ ((Comps.cons c .nil).len < fixed.length) := by simp [Comps.len]; omega
+      simp [toExprV, hl, toExprFrom, hT, he, Res.bind]
+    refine ⟨.cons (.cons e .nil) rows, ?_⟩
+    simp only [resolveTuplesVFrom, ht, hne]
+    simp [hrow, hrows, Res.bind]
+
+/-- Non-vacuity: `In(1, 2)` on `f(xs ...int)` — the call that used to panic — meets the hypotheses. -/
+example : ∃ rows, resolveTuplesVFrom (.one (.val (some (.int "int" true 1, 8))) (.one (.val (some (.int "int" true 2, 8))) .nil))
+    [] { name := "int", kind := .int, size := 8 } 0 = .ok rows :=
+  in_resolve_total_variadic_partial [] _ { name := "int", kind := .int, size := 8 } (by simp) rfl _ _ 0 rfl (by
+    intro c hc
+    simp at hc
+    rcases hc with rfl | rfl <;> exact ⟨⟨by simp [WellTyped, Val.ty], rfl⟩, rfl⟩)
+
 end C18
